@@ -135,6 +135,11 @@ MCNext ==
           Write([op |-> "ReplaceById", c |-> c, id |-> DocId(d), docs |-> <<d>>])
     \/ \E c \in CollPool, id \in IdPool, u \in UpdPool :
           Write([op |-> "UpdateById", c |-> c, id |-> id, upd |-> u])
+    \/ \E c \in CollPool, d \in DocPool :
+          Write([op |-> "Save", c |-> c, docs |-> <<d>>])
+    \* DB.Update with an update map (no window: the selection is the matching set)
+    \/ \E c \in CollPool, w \in ({<<>>} \cup {<< <<"where", cr>> >> : cr \in BulkCrits}), v \in XVals :
+          Write([op |-> "Update", c |-> c, q |-> w, upd |-> <<"setall", << <<FX, v>> >> >>])
     \/ \E c \in CollPool \cup {Missing}, id \in IdPool :
           Write([op |-> "DeleteById", c |-> c, id |-> id])
     \/ \E c \in CollPool, b \in BulkBuilders, u \in BulkUpds :
